@@ -10,12 +10,28 @@ def run(c):
     if p.returncode != 0:
         c.broken.append("harness does not build against /repo (conccheck -race): " + (p.stdout or "")[-1500:])
     c.props()
-    if c.broken:
-        return c.finish()
     args = ["-seed", c.seed, "-tier", c.tier]
-    if c.replay_file and c.replay_file.get("failing_input"):
-        pass  # the schedule of a race cannot be replayed exactly: the whole run is repeated with the same seed
-    res, d = c.tool("conccheck", args, timeout=3000)
+    # (the schedule of a race cannot be replayed exactly: a replay repeats the whole run with the same seed)
+    d = os.path.join(c.outdir, "conccheck")
+    res, err = vcheck.run_tool("conccheck", args, d, 3000)
+    if res is None:
+        if "DATA RACE" in (err or ""):
+            # the race detector makes the process exit with status 66: its report is the failing history
+            rep = err[err.index("WARNING: DATA RACE"):][:1800] if "WARNING: DATA RACE" in err else err[-1800:]
+            frames = [l.strip() for l in rep.splitlines() if l.strip().startswith("github.com/tdewolff/minify") or l.strip().startswith("main.")][:3]
+            c.violation({"kind": "oracle", "signature": "race:" + ";".join(frames)[:200], "input": "conccheck -seed %s -tier %s (N goroutines on one registry, race detector)" % (c.seed, c.tier),
+                         "observed": rep, "expected": "no data race", "detail": "go race detector report"}, "conccheck")
+        else:
+            c.broken.append("harness: " + err)
+    else:
+        c.cov["evaluations"] += res.get("evaluations", 0)
+        c.cov["distinct_nontrivial"] += res.get("distinct_nontrivial", 0)
+        if res.get("rule"):
+            c.rules.append("[conccheck] " + res["rule"])
+        c.cov["samples"] += [{"tool": "conccheck", "case": x} for x in res.get("samples", [])[:3]]
+        c.cov["tools"].append({"tool": "conccheck", "evaluations": res.get("evaluations", 0), "violations": len(res.get("violations", [])), "histograms": res.get("histograms")})
+        for v in res.get("violations", []):
+            c.violation(v, "conccheck")
     c.replay_known(None)
     c.cov["trusted_base"] += [
         "C13: the frame premise (calls write only goroutine-local state) is read off the source by the translator (go/ast: assignments, inc/dec, append on package-level variables, writes through un-copied option structs) — writes through other pointers/aliases would not be seen by that reading; they are the race detector's job",
